@@ -92,5 +92,72 @@ impl SenderInner {
 //@@ end
 }
 
+// ================================================================ SenderInner::resend (link resumption: a delivery the peer has no record of is sent again under a new tag)
+//@@ trusted for `resend` the link is a second stand-in (LinkR): get_delivery_tag_or_detached (the credit wait that ALSO watches the link's incoming channel: unit SENDSPLIT / LINKFLOW), generate_non_resuming_transfer_performative and send_transfer_without_modifying_unsettled_map (unit SENDSPLIT) record what they are handed; the unsettled map is a map view; a bare `flow_state.consume(..)` -- a credit wait nothing can interrupt -- is a stand-in whose call is an obligation
+opaque!(DeliveryTag, Transfer, ChanId);
+pub struct UnsettledMessage { pub payload: Payload, pub state: Option<DeliveryState>, pub message_format: u32, pub sender: ChanId }
+impl Payload { #[verifier::external_body] pub fn clone(&self) -> (r: Payload) ensures r == *self { unimplemented!() } }
+impl DeliveryTag {
+    #[verifier::external_body] pub fn clone(&self) -> (r: DeliveryTag) ensures r == *self { unimplemented!() }
+    #[verifier::external_body] pub fn from(t: [u8; 4]) -> (r: DeliveryTag) ensures r == tag_of(t) { unimplemented!() }
+}
+pub uninterp spec fn tag_of(t: [u8; 4]) -> DeliveryTag;
+impl UnsettledMessage {
+    /// UnsettledMessage::settle (unit LINK): the send waiting on this delivery is resolved
+    #[verifier::external_body]
+    pub fn settle(self) -> (r: Result<(), Option<DeliveryState>>) { unimplemented!() }
+}
+pub struct FlowStateR { pub p: u8 }
+impl FlowStateR {
+    /// `flow_state.consume(n).await` on its own
+    #[verifier::external_body]
+    pub fn consume(&self, n: u32) -> (r: [u8; 4])
+        requires false,     // [C14.wait.credit-wait-watches-the-channel] a sender that waits for link credit also watches its incoming channel (get_delivery_tag_or_detached): the peer's detach, or the session going away, ends the wait with an error -- a bare wait for credit hangs for ever once nobody can grant any
+    { unimplemented!() }
+}
+pub struct XferCall { pub tag: DeliveryTag, pub message_format: u32, pub settled: Option<bool>, pub state: Option<DeliveryState>, pub batchable: bool }
+pub uninterp spec fn transfer_for(c: XferCall) -> Transfer;
+pub struct LinkR { pub unsettled: Option<Map<DeliveryTag, UnsettledMessage>>, pub waits: Ghost<nat>, pub sent: Ghost<Seq<(Transfer, Payload)>>, pub flow_state: FlowStateR }
+impl LinkR {
+    #[verifier::external_body]
+    pub fn get_delivery_tag_or_detached(&mut self, writer: &OutTx, detached: DetachedFut) -> (r: Result<[u8; 4], LinkStateError>)
+        ensures final(self).unsettled == old(self).unsettled, final(self).sent == old(self).sent, final(self).waits@ == old(self).waits@ + 1,
+    { unimplemented!() }
+    #[verifier::external_body]
+    pub fn generate_non_resuming_transfer_performative(&self, delivery_tag: DeliveryTag, message_format: u32, settled: Option<bool>, state: Option<DeliveryState>, batchable: bool) -> (r: Result<Transfer, LinkStateError>)
+        ensures r is Ok ==> r->Ok_0 == transfer_for(XferCall { tag: delivery_tag, message_format, settled, state, batchable }),
+    { unimplemented!() }
+    #[verifier::external_body]
+    pub fn send_transfer_without_modifying_unsettled_map(&mut self, writer: &OutTx, transfer: Transfer, payload: Payload) -> (r: Result<bool, LinkStateError>)
+        ensures final(self).unsettled == old(self).unsettled, final(self).waits == old(self).waits,
+            r is Ok ==> final(self).sent@ == old(self).sent@.push((transfer, payload)),
+    { unimplemented!() }
+}
+/// `guard.get_or_insert(OrderedMap::new()).insert(k, v)` on the unsettled map (R15)
+#[verifier::external_body]
+pub fn opt_map_insert(m: &mut Option<Map<DeliveryTag, UnsettledMessage>>, k: DeliveryTag, v: UnsettledMessage)
+    ensures *final(m) == Some((match *old(m) { Some(mm) => mm, None => Map::empty() }).insert(k, v)),
+{ unimplemented!() }
+pub struct SenderInnerR { pub link: LinkR, pub outgoing: OutTx, pub incoming: InRx }
+impl SenderInnerR {
+//@@ fn file=fe2o3-amqp/src/link/sender.rs impl=`impl SenderInner<SenderLink<Target>>` name=resend dropuses
+//@@ qmark
+//@@ blockarms
+//@@ generics
+//@@ nowhere
+//@@ ret Result<(), SendErr>
+//@@ subst `let mut guard = self.link.unsettled.write(); guard .get_or_insert(OrderedMap::new()) .insert(new_delivery_tag, unsettled_message);` => `opt_map_insert(&mut self.link.unsettled, new_delivery_tag, unsettled_message);` rule=R15,R4
+//@@ spec
+    ensures
+        final(self).link.waits@ <= old(self).link.waits@ + 1,
+        r is Ok ==> final(self).link.sent@.len() == old(self).link.sent@.len() + 1 && ({
+            let (t, p) = final(self).link.sent@.last();
+            &&& p == unsettled_message.payload                                                  // [C01.resend.same-payload] what is sent again is the delivery's own payload
+            &&& exists|tag: [u8; 4]| t == transfer_for(XferCall { tag: tag_of(tag), message_format: unsettled_message.message_format, settled: None, state: None, batchable: false })     // a fresh, non-resuming transfer with the delivery's message format
+                    && (final(self).link.unsettled != old(self).link.unsettled ==> final(self).link.unsettled == Some((match old(self).link.unsettled { Some(mm) => mm, None => Map::empty() }).insert(tag_of(tag), unsettled_message)))       // [C02.resend.completion-channel-travels-with-the-delivery] unless the delivery went out settled, it is unsettled again under the NEW tag -- payload, state, format AND the channel its send waits on: the outcome the peer reports for the new tag resolves the original send
+        }),
+//@@ end
+}
+
 } // verus!
 fn main() {}
